@@ -103,60 +103,81 @@ pub fn has_struct(t: &Ty) -> bool {
     match t { Ty::Struct(_) => true, Ty::Opt(x) | Ty::List(x, _, _) => has_struct(x), _ => false }
 }
 
-/// The canonical embedding of a value into (the variant of) a type, composed from the base
+/// The canonical embeddings of a value into (the variant of) a type, composed from the base
 /// conversions the type-level dispatcher uses: Boolean -> Integer -> Float, anything printable -> Text,
-/// x -> some(x), x -> (x), applied structurally.  Membership "up to injection" is
-/// `embed(t, v).map(|w| t.contains(&w))`.
-pub fn embed(t: &DataType, v: &Value) -> Option<Value> {
+/// x -> some(x), some(x) -> x, x -> (x), x -> {0: x}, applied structurally.  Several paths can apply
+/// (a list can be read element-wise or as one element): all candidates are produced, and membership
+/// "up to injection" is: some candidate is contained.
+/// `contains` restricted to a value of the type's own variant (the library's contains converts the
+/// type into the variant of the value first, which makes float[0.5 +inf) "contain" the text 12)
+pub fn strict_contains(t: &DataType, v: &Value) -> bool {
     use qrlew::data_type::Variant as _;
-    if t.contains(v) { return Some(v.clone()); }
+    let same = matches!((t, v), (DataType::Any, _) | (DataType::Unit(_), Value::Unit(_)) | (DataType::Boolean(_), Value::Boolean(_)) | (DataType::Integer(_), Value::Integer(_))
+        | (DataType::Float(_), Value::Float(_)) | (DataType::Text(_), Value::Text(_)) | (DataType::Optional(_), Value::Optional(_)) | (DataType::List(_), Value::List(_))
+        | (DataType::Struct(_), Value::Struct(_)) | (DataType::Union(_), Value::Union(_)) | (DataType::Date(_), Value::Date(_)) | (DataType::DateTime(_), Value::DateTime(_)));
+    // a union type holds the values of its fields
+    if let DataType::Union(u) = t { if !matches!(v, Value::Union(_)) { return u.fields().iter().any(|(_, ft)| strict_contains(ft, v)); } }
+    if !same { return false; }
     match (t, v) {
-        (DataType::Any, _) => Some(v.clone()),
-        (DataType::Optional(o), Value::Optional(x)) => match x.as_ref() {
-            None => Some(Value::none()),
-            Some(x) => embed(o.data_type(), x).map(Value::some),
-        },
-        (DataType::Optional(o), x) => embed(o.data_type(), x).map(Value::some),
-        (DataType::List(l), Value::List(xs)) => {
-            let ys: Option<Vec<Value>> = xs.iter().map(|x| embed(l.data_type(), x)).collect();
-            ys.map(Value::list)
-        }
-        (DataType::List(l), x) => embed(l.data_type(), x).map(|y| Value::list(vec![y])),
-        (DataType::Struct(s), Value::Struct(fs)) => {
-            let mut out: Vec<(String, std::sync::Arc<Value>)> = vec![];
-            for (n, ft) in s.fields() {
-                let fv = fs.iter().find(|(m, _)| m == n)?;
-                out.push((n.clone(), std::sync::Arc::new(embed(ft, &fv.1)?)));
-            }
-            Some(Value::structured(out))
-        }
-        // a value wrapped in some(.) read in a non-optional type: some(x) -> x
-        (t, Value::Optional(x)) if !matches!(t, DataType::Optional(_)) => match x.as_ref() { Some(x) => embed(t, x), None => None },
-        // a union type: the first field the value embeds into
-        (DataType::Union(u), x) => u.fields().iter().find_map(|(_, ft)| embed(ft, x)),
-        // Base<DataType,Struct>: a non-struct x is read as the struct {0: x}
-        (DataType::Struct(_), x) => embed(t, &Value::structured(vec![("0".to_string(), std::sync::Arc::new(x.clone()))])),
-        (DataType::Integer(_), Value::Boolean(b)) => Some(Value::integer(**b as i64)),
-        (DataType::Integer(_), Value::Float(f)) => { let x: f64 = **f; if (x as i64) as f64 == x { Some(Value::integer(x as i64)) } else { None } }
-        (DataType::Float(_), Value::Integer(i)) => Some(Value::float(**i as f64)),
-        (DataType::Float(_), Value::Boolean(b)) => Some(Value::float(**b as i64 as f64)),
-        (DataType::Boolean(_), Value::Integer(i)) => match **i { 0 => Some(Value::boolean(false)), 1 => Some(Value::boolean(true)), _ => None },
-        (DataType::Text(_), Value::Integer(i)) => Some(Value::text(format!("{}", **i))),
-        (DataType::Text(_), Value::Float(f)) => Some(Value::text(format!("{}", **f))),
-        (DataType::Text(_), Value::Boolean(b)) => Some(Value::text(format!("{}", **b))),
-        _ => None,
+        (DataType::Optional(o), Value::Optional(x)) => match x.as_ref() { None => true, Some(x) => strict_contains(o.data_type(), x) },
+        (DataType::List(l), Value::List(xs)) => t.contains(v) && xs.iter().all(|x| strict_contains(l.data_type(), x)),
+        (DataType::Struct(s), Value::Struct(fs)) => s.fields().iter().all(|(n, ft)| fs.iter().find(|(m, _)| m == n).map(|fv| strict_contains(ft, &fv.1)).unwrap_or(false)),
+        _ => t.contains(v),
     }
 }
-pub fn member(t: &DataType, v: &Value) -> bool {
-    use qrlew::data_type::Variant as _;
+pub fn embeds(t: &DataType, v: &Value, depth: u32) -> Vec<Value> {
+    let mut out: Vec<Value> = vec![];
+    if strict_contains(t, v) { out.push(v.clone()); }
+    if depth == 0 { return out; }
+    let d = depth - 1;
     match (t, v) {
-        (DataType::Optional(o), Value::Optional(x)) => match x.as_ref() { None => true, Some(x) => member(o.data_type(), x) },
-        (DataType::Optional(o), x) => member(o.data_type(), x),
-        // a union type holds the values of its fields
+        (DataType::Any, _) => out.push(v.clone()),
+        (DataType::Optional(o), Value::Optional(x)) => match x.as_ref() {
+            None => out.push(Value::none()),
+            Some(x) => { for y in embeds(o.data_type(), x, d) { out.push(Value::some(y)); } }
+        },
+        (DataType::Optional(o), x) => { for y in embeds(o.data_type(), x, d) { out.push(Value::some(y)); } }
+        _ => {}
+    }
+    if let (false, Value::Optional(x)) = (matches!(t, DataType::Optional(_)), v) { if let Some(x) = x.as_ref() { out.extend(embeds(t, x, d)); } }
+    match (t, v) {
+        (DataType::List(l), Value::List(xs)) => {
+            // element-wise (first candidate of each element)
+            let ys: Option<Vec<Value>> = xs.iter().map(|x| embeds(l.data_type(), x, d).into_iter().next()).collect();
+            if let Some(ys) = ys { out.push(Value::list(ys)); }
+            for y in embeds(l.data_type(), v, d) { out.push(Value::list(vec![y])); }
+        }
+        (DataType::List(l), x) => { for y in embeds(l.data_type(), x, d) { out.push(Value::list(vec![y])); } }
+        (DataType::Struct(s), Value::Struct(fs)) => {
+            let mut fields: Vec<(String, std::sync::Arc<Value>)> = vec![]; let mut ok = true;
+            for (n, ft) in s.fields() {
+                match fs.iter().find(|(m, _)| m == n).and_then(|fv| embeds(ft, &fv.1, d).into_iter().next()) { Some(y) => fields.push((n.clone(), std::sync::Arc::new(y))), None => { ok = false; break; } }
+            }
+            if ok { out.push(Value::structured(fields)); }
+            out.extend(embeds(t, &Value::structured(vec![("0".to_string(), std::sync::Arc::new(v.clone()))]), d));
+        }
+        (DataType::Struct(_), x) => out.extend(embeds(t, &Value::structured(vec![("0".to_string(), std::sync::Arc::new(x.clone()))]), d)),
+        (DataType::Union(u), x) => { for (_, ft) in u.fields() { out.extend(embeds(ft, x, d)); } }
+        (DataType::Integer(_), Value::Boolean(b)) => out.push(Value::integer(**b as i64)),
+        (DataType::Integer(_), Value::Float(f)) => { let x: f64 = **f; if (x as i64) as f64 == x { out.push(Value::integer(x as i64)); } }
+        (DataType::Float(_), Value::Integer(i)) => out.push(Value::float(**i as f64)),
+        (DataType::Float(_), Value::Boolean(b)) => out.push(Value::float(**b as i64 as f64)),
+        (DataType::Boolean(_), Value::Integer(i)) => match **i { 0 => out.push(Value::boolean(false)), 1 => out.push(Value::boolean(true)), _ => {} },
+        (DataType::Text(_), Value::Integer(i)) => out.push(Value::text(format!("{}", **i))),
+        (DataType::Text(_), Value::Float(f)) => out.push(Value::text(format!("{}", **f))),
+        (DataType::Text(_), Value::Boolean(b)) => out.push(Value::text(format!("{}", **b))),
+        _ => {}
+    }
+    out.truncate(24);
+    out
+}
+pub fn embed(t: &DataType, v: &Value) -> Option<Value> {
+    embeds(t, v, 6).into_iter().find(|w| strict_contains(t, w))
+}
+pub fn member(t: &DataType, v: &Value) -> bool {
+    match (t, v) {
         (DataType::Union(u), x) => u.fields().iter().any(|(_, ft)| member(ft, x)),
-        // some(x) read in a non-optional type
-        (t, Value::Optional(x)) => match x.as_ref() { Some(x) => member(t, x), None => false },
-        _ => match std::panic::catch_unwind(std::panic::AssertUnwindSafe(|| embed(t, v).map(|w| t.contains(&w)).unwrap_or(false))) { Ok(b) => b, Err(_) => false },
+        _ => match std::panic::catch_unwind(std::panic::AssertUnwindSafe(|| embed(t, v).is_some())) { Ok(b) => b, Err(_) => false },
     }
 }
 
@@ -168,3 +189,5 @@ pub fn ulp_close(t: &DataType, v: &Value) -> bool {
         iv.iter().any(|[a, b]| { let eps = 1e-8 * y.abs().max(a.abs()).max(b.abs()).max(1.0); y >= a - eps && y <= b + eps })
     } else { false }
 }
+
+pub fn is_composite(t: &Ty) -> bool { matches!(t, Ty::Opt(_) | Ty::List(..) | Ty::Struct(_)) }
